@@ -140,6 +140,28 @@ contract(T + "NumberValueObject.matches", props=P,
          ensures={"malformed-number-does-not-match": "implies(not int_parses(tag_value), result == False)",
                   "compares-the-number": "implies(int_parses(tag_value), result == vo_compare(self, int_of(tag_value)))"})
 
+oracle("lower", ["val"], "val:str")
+TRUES = "('true', 'yes', 'on')"
+FALSES = "('false', 'no', 'off')"
+contract(T + "BoolValueObject.to_bool", props=P, params={"value": "str"}, result="bool",
+         callsites={"value.lower": "lib:str.lower"},
+         raises=[Raises("ValueError", when="not (lower(value) in %s) and not (lower(value) in %s)" % (TRUES, FALSES),
+                        label="neither-a-true-word-nor-a-false-word")],
+         ensures={"true-words": "implies(lower(value) in %s, result == True)" % TRUES,
+                  "false-words": "implies(lower(value) in %s, result == False)" % FALSES})
+contract("abs:BoolValueObject.to_bool", trusted=False, pos_params=["value"], pure=True, result="bool",
+         raises=[Raises("ValueError", when="not (lower(value) in %s) and not (lower(value) in %s)" % (TRUES, FALSES))],
+         ensures={"value": "result == (lower(value) in %s)" % TRUES},
+         doc="call-site view of to_bool for a string (proved above)")
+contract(T + "BoolValueObject.matches", props=P,
+         params={"self": "ref:BoolValueObject", "tag_value": "str"}, result="bool", self_classes=["BoolValueObject"],
+         callsites={"super(BoolValueObject, self).matches": "abs:ValueObject.matches#base", "self.to_bool": "abs:BoolValueObject.to_bool"},
+         ensures={"malformed-boolean-word-does-not-match":
+                  "implies(not (lower(tag_value) in %s) and not (lower(tag_value) in %s), result == False)" % (TRUES, FALSES),
+                  "compares-the-boolean":
+                  "implies((lower(tag_value) in %s) or (lower(tag_value) in %s), result == vo_compare(self, lower(tag_value) in %s))"
+                  % (TRUES, FALSES, TRUES)})
+
 prop("C19", level="proof",
      bounded=[],
      explanation="per-category logic of is_tag_group_enabled proved against the documented formula for tag groups "
